@@ -9,6 +9,9 @@
    Refuted by two classes (both replayed on isla.evaluator.evaluate on every run):
      K_selfrec_open  an open leaf of the quantified type that can reach itself is not a "potential match";
      K_nth_open      nth counts same-label nodes in pre-order, an earlier open leaf can add some.
+   A third class is recorded on the implementation only (no model-level refutation: the search is
+   not modelled, count_open3 = Raise NotImpl):
+     K_count_insert  count's tree-insertion search answers FALSE although a completion reaches the target.
    Proved for all inputs: where UNKNOWN is forced (SMT atoms over open trees, universal quantifiers
    with a potential match; existentials with a potential match are never FALSE), what the
    might-match test without match expression means (qmm3_none_spec) with a sound and (under the
